@@ -23,7 +23,7 @@ from vt import nf, symtorch
 from vt.cond import Infeasible, Undecided
 from vt.stubs import symbolic_factories
 from vt.runner import Ob, Refuted
-from vt.scenario import MkNum, _flat, el, scenario_ob
+from vt.scenario import MkNum, _flat, _raised_in_repo, el, scenario_ob
 from vt.symtorch import ST
 
 FUNCS = [
@@ -476,6 +476,220 @@ def ob_linear_equal_knots():
     return Ob("C12.coalescent.linear.equal_knots", "B", body, clause="gradient = derivative of the reported value where neighbouring population sizes are equal", funcs=FUNCS)
 
 
+# ------------------------------------------------------------------------------------------
+# shipped priors through the way a model file builds them: every estimated parameter gets the derivative of the reported value
+# ------------------------------------------------------------------------------------------
+def _prior_cases():
+    """label -> builder() returning (model callable, {name: Parameter that is estimated})"""
+    from torchtree.core.parameter import Parameter
+    from torchtree.distributions.distributions import Distribution
+    from torchtree.distributions.log_normal import LogNormal
+    from torchtree.distributions.normal import Normal as TTNormal
+    from torchtree.distributions.inverse_gamma import InverseGamma
+    from torchtree.distributions.bayesian_bridge import BayesianBridge
+    from torchtree.distributions.scale_mixture import ScaleMixtureNormal
+    t64 = lambda v: torch.tensor(v, dtype=torch.float64)
+    P = lambda n, v: Parameter(n, t64(v))
+    C = {}
+
+    def dist(cls, xs, tensors, numbers):
+        def build():
+            x = P("x", xs)
+            ps = {k: P(k, v) for k, v in tensors.items()}
+            return Distribution("d", cls, x, ps, **numbers), dict(ps, x=x)
+        return build
+    # LogNormal (mean, scale | stdev): every mix of estimated parameter and Python constant the constructor distinguishes
+    C["LogNormal(mean,scale)"] = dist(LogNormal, [0.7, 2.1], {"mean": [1.5], "scale": [0.8]}, {})
+    C["LogNormal(mean=const,scale)"] = dist(LogNormal, [0.7, 2.1], {"scale": [0.8]}, {"mean": 1.5})
+    C["LogNormal(mean,scale=const)"] = dist(LogNormal, [0.7, 2.1], {"mean": [1.5]}, {"scale": 0.8})
+    C["LogNormal(mean,stdev)"] = dist(LogNormal, [0.7, 2.1], {"mean": [1.5], "stdev": [0.8]}, {})
+    C["LogNormal(mean=const,stdev)"] = dist(LogNormal, [0.7, 2.1], {"stdev": [0.8]}, {"mean": 1.5})
+    C["LogNormal(mean,stdev=const)"] = dist(LogNormal, [0.7, 2.1], {"mean": [1.5]}, {"stdev": 0.8})
+    C["LogNormal(mean[2],stdev[2])"] = dist(LogNormal, [0.7, 2.1], {"mean": [1.5, 0.9], "stdev": [0.8, 1.7]}, {})
+    C["Normal(loc,scale)"] = dist(TTNormal, [0.7, -2.1], {"loc": [0.5], "scale": [0.8]}, {})
+    C["Normal(loc,precision)"] = dist(TTNormal, [0.7, -2.1], {"loc": [0.5], "precision": [0.8]}, {})
+    C["Normal(loc=const,precision)"] = dist(TTNormal, [0.7, -2.1], {"precision": [0.8]}, {"loc": 0.5})
+    C["Normal(loc,precision=const)"] = dist(TTNormal, [0.7, -2.1], {"loc": [0.5]}, {"precision": 0.8})
+    C["InverseGamma(concentration,rate)"] = dist(InverseGamma, [0.7, 2.1], {"concentration": [1.5], "rate": [0.8]}, {})
+
+    def bridge(local, slab):
+        def build():
+            x, scale = P("x", [0.3, -1.2, 0.8]), P("scale", [0.7])
+            ps = {"x": x, "scale": scale}
+            kw = {}
+            if local:
+                kw["local_scale"] = ps["local_scale"] = P("local_scale", [0.5, 1.4, 2.2])
+            else:
+                kw["alpha"] = ps["alpha"] = P("alpha", [0.6])
+            if slab:
+                kw["slab"] = ps["slab"] = P("slab", [1.9])
+            return BayesianBridge("bb", x, scale, **kw), ps
+        return build
+    C["BayesianBridge(scale,alpha)"] = bridge(False, False)
+    C["BayesianBridge(scale,local_scale)"] = bridge(True, False)
+    C["BayesianBridge(scale,local_scale,slab)"] = bridge(True, True)
+
+    def mixture(slab):
+        def build():
+            x, loc, scale, gamma = P("x", [0.3, -1.2, 0.8]), P("loc", [0.1]), P("scale", [0.7]), P("gamma", [0.5, 1.4, 2.2])
+            ps = {"x": x, "loc": loc, "scale": scale, "gamma": gamma}
+            if slab:
+                ps["slab"] = P("slab", [1.9])
+            return ScaleMixtureNormal("sm", x, loc, scale, gamma, ps.get("slab")), ps
+        return build
+    C["ScaleMixtureNormal(loc,scale,gamma)"] = mixture(False)
+    C["ScaleMixtureNormal(loc,scale,gamma,slab)"] = mixture(True)
+    return C
+
+
+def _prior_gradient_problems(label):
+    build = _prior_cases()[label]
+    model, ps = build()
+    for p in ps.values():
+        p.requires_grad = True
+    bad, n = [], 0
+    try:
+        v = model().sum()
+        v.backward()
+        grads = {k: (None if p.grad is None else p.grad.detach().clone()) for k, p in ps.items()}
+    except RuntimeError as e:
+        if not _raised_in_repo(e) and "inplace operation" not in str(e) and "does not require grad" not in str(e):
+            raise
+        return ["backward of the reported value raises %s: %s" % (type(e).__name__, str(e)[:200])], 0
+    h = 1e-6
+    for k in ps:
+        base = ps[k].tensor.detach().clone()
+        for i in range(base.numel()):
+            vals = []
+            for sgn in (1.0, -1.0):
+                m2, ps2 = build()
+                t = base.clone().reshape(-1)
+                t[i] += sgn * h
+                ps2[k].tensor = t.reshape(base.shape)
+                with torch.no_grad():
+                    vals.append(float(m2().sum()))
+            fd = (vals[0] - vals[1]) / (2 * h)
+            n += 1
+            if grads[k] is None:
+                if abs(fd) > 1e-6:
+                    bad.append("%s[%d] influences the value (central difference %.6g) but receives NO gradient" % (k, i, fd))
+                continue
+            g = float(grads[k].reshape(-1)[i])
+            if abs(g - fd) > 1e-5 * max(1.0, abs(fd)):
+                bad.append("d/d %s[%d]: autograd %.8g, central difference of the reported value %.8g" % (k, i, g, fd))
+    return bad, n
+
+
+def ob_prior_gradient(label):
+    def body():
+        bad, n = _prior_gradient_problems(label)
+        if bad:
+            raise Refuted("%s: %s" % (label, "; ".join(bad[:3])), witness={"case": label, "problems": bad},
+                          replay={"kind": "custom", "contract": "C12", "func": "replay_prior_gradient", "args": {"case": label}}, confirmed=True)
+        return {"backend": "real autograd", "cases": n, "bounded": "one interior point per configuration",
+                "statement": "%s: %d partial derivatives of the reported log density w.r.t. every estimated parameter equal central differences; none is missing" % (label, n)}
+    return Ob("C12.prior.gradient[%s]" % label, "B", body, clause="every estimated parameter of a shipped prior receives the derivative of the reported value", funcs=FUNCS, timeout=120)
+
+
+def replay_prior_gradient(args):
+    bad, _ = _prior_gradient_problems(args["case"])
+    if bad:
+        return False, "%s: %s" % (args["case"], "; ".join(bad[:3]))
+    return True, "held"
+
+
+def _bd_range_problems(which, delta):
+    import torchtree.evolution.bdsk as bd
+    import torchtree.evolution.birth_death as bdc
+    t64 = lambda v: torch.tensor(v, dtype=torch.float64)
+    h = t64([0.0, 1.0, 2.5, 3.5, 2.0, 4.0, 5.0])
+    x0 = [2.0 * delta, 0.7 * delta, 0.3 * delta]
+
+    def value(v):
+        lam, mu, psi = v[0:1], v[1:2], v[2:3]
+        if which == "skyline":
+            return bd.PiecewiseConstantBirthDeath(lam, mu, psi, origin=t64([6.0]), survival=True).log_prob(h).sum()
+        return bdc.BirthDeath(lam, mu, psi, t64([0.0]), t64([6.0]), survival=True).log_prob(h).sum()
+    v = t64(x0).requires_grad_(True)
+    val = value(v)
+    bad = []
+    if not bool(torch.isfinite(val)):
+        return ["the log density itself is %s" % float(val)], 0
+    val.backward()
+    n = 0
+    for i, name in enumerate(("lambda", "mu", "psi")):
+        hh = 1e-6 * x0[i]
+        e = torch.zeros(3, dtype=torch.float64)
+        e[i] = hh
+        with torch.no_grad():
+            fd = float(value(t64(x0) + e) - value(t64(x0) - e)) / (2 * hh)
+        g = float(v.grad[i])
+        n += 1
+        if not (abs(g - fd) <= 1e-4 * max(1.0, abs(fd))):
+            bad.append("d/d %s: autograd %.6g, central difference of the reported value %.6g" % (name, g, fd))
+    return bad, n
+
+
+def ob_bd_gradient_range(which, delta):
+    def body():
+        bad, n = _bd_range_problems(which, delta)
+        if bad:
+            raise Refuted("%s birth-death density, rates (2, 0.7, 0.3) x %s over an origin of 6 (A x origin = %.0f): %s" % (which, delta, 11.08 * delta, "; ".join(bad)),
+                          witness={"which": which, "delta": delta, "problems": bad},
+                          replay={"kind": "custom", "contract": "C12", "func": "replay_bd_gradient_range", "args": {"which": which, "delta": delta}}, confirmed=True)
+        return {"backend": "real autograd", "cases": n, "statement": "%s model, rate scale %s: %d partial derivatives equal central differences" % (which, delta, n)}
+    return Ob("C12.birth_death.gradient.range[%s,rates x%s]" % (which, delta), "B", body,
+              clause="gradient = derivative of the reported value for fast rates over a long origin (range of the arithmetic in the backward pass)", funcs=FUNCS)
+
+
+def replay_bd_gradient_range(args):
+    bad, _ = _bd_range_problems(args["which"], args["delta"])
+    return (False, "; ".join(bad)) if bad else (True, "held")
+
+
+_PARAM_FORMS = {
+    "tensor": {"tensor": [0.5, 1.5]},
+    "tensor+dimension": {"tensor": [0.5], "dimension": 3},
+    "tensor[2]+dimension=5": {"tensor": [0.5, 1.5], "dimension": 5},
+    "full": {"full": [3], "tensor": 0.5},
+    "full_like": {"full_like": "ref", "tensor": 0.5},
+    "ones": {"ones": [3]},
+    "ones_like": {"ones_like": "ref"},
+    "zeros_like": {"zeros_like": "ref"},
+}
+
+
+def _parameter_json_problem(form):
+    from torchtree.core.parameter import Parameter
+    ref = Parameter("ref", torch.tensor([1.0, 2.0, 3.0], dtype=torch.float64))
+    data = dict(_PARAM_FORMS[form], id="p", type="Parameter", requires_grad=True, dtype="torch.float64")
+    p = Parameter.from_json(data, {"ref": ref})
+    w = torch.arange(1, p.tensor.numel() + 1, dtype=torch.float64).reshape(p.tensor.shape)
+    v = ((p.tensor + 0.3) ** 2 * w).sum()       # a value every element influences: d/dp_i = 2 w_i (p_i + 0.3)
+    v.backward()
+    want = 2 * w * (p.tensor.detach() + 0.3)
+    if p.grad is None:
+        return "Parameter.from_json(%s) with requires_grad true: the parameter receives no gradient (its tensor is not a leaf: is_leaf=%s)" % (
+            {k: v_ for k, v_ in data.items() if k not in ("id", "type")}, p.tensor.is_leaf)
+    if not torch.allclose(p.grad, want):
+        return "Parameter.from_json(%s): gradient %s, expected %s" % (data, p.grad.tolist(), want.tolist())
+    return None
+
+
+def ob_parameter_json_gradient(form):
+    def body():
+        msg = _parameter_json_problem(form)
+        if msg:
+            raise Refuted(msg, witness={"form": form}, replay={"kind": "custom", "contract": "C12", "func": "replay_parameter_json_gradient", "args": {"form": form}}, confirmed=True)
+        return {"backend": "real autograd", "cases": 1, "statement": "a parameter declared with requires_grad in a model file (%s) is a leaf and receives the derivative of a value it influences" % form}
+    return Ob("C12.parameter.from_json.requires_grad[%s]" % form, "B", body, clause="no parameter that influences the value receives a missing gradient (parameter declared with requires_grad in the model file)", funcs=FUNCS)
+
+
+def replay_parameter_json_gradient(args):
+    msg = _parameter_json_problem(args["form"])
+    return (False, msg) if msg else (True, "held")
+
+
 def ob_degenerate_rates(kind, label, x0):
     """substitution models at the parameter values where the rate matrix has REPEATED eigenvalues (HKY at kappa = 1, GTR with all
     exchangeabilities equal - the value the command line initialises them with): the transition probabilities are smooth there, the
@@ -601,6 +815,13 @@ def obligations(tier, seed):
         obs.append(ob_degenerate_rates(kind, label, x0))
     for observer in ("logger", "tree_logger", "no_grad_evaluation"):
         obs.append(ob_observer_then_backward(observer))
+    for label in _prior_cases():
+        obs.append(ob_prior_gradient(label))
+    for form in _PARAM_FORMS:
+        obs.append(ob_parameter_json_gradient(form))
+    for which in ("skyline", "constant"):
+        for delta in (1, 20, 25, 31, 60):
+            obs.append(ob_bd_gradient_range(which, delta))
 
     def add(name, contract, factory, args, pick=None, **kw):
         kw.setdefault("max_paths", 20000)
